@@ -20,11 +20,11 @@ ENTRY = dict(
     level_note=(
         "trusted: Lean kernel, harness quiescence detection (goroutine states from runtime.Stack), extractor; modelled: "
         "Go select as an explicit choice, receive-to-next-select of a goroutine as one step, the consumer of the "
-        "timer channel always ready; tested only: the engine-level clause (a timer catch event continues once per "
-        "firing it was listening for)"),
+        "timer channel always ready; tested only (family c13e, not proved): the engine-level clause (a timer catch "
+        "event continues once per firing it was listening for)"),
     technique="Lean 4 proof (inductive invariants over a small-step machine) + exhaustive actor differential on the grid of the quantifier",
     lean_modules=["Bpmn.Props.C13", "Bpmn.Props.C13Current"],
-    families=["c13"],
+    families=["c13", "c13e"],
     exhaustive=True,
     multi_seed=False,
     rule=("definitions: date (future / now / past), duration (10 s / 0), cycles R0..R3 and unbounded x {no start, start "
@@ -38,7 +38,13 @@ ENTRY = dict(
           "clock reading), channel closure and the mock's armed wake-ups; each is compared with the Lean model (some "
           "resolution of the selects must reproduce the history) and the C13 predicate is evaluated on the "
           "implementation's own firings; non-trivial = at least one firing, or operations after a cancellation; "
-          "distinct = distinct (definition, history)"),
+          "distinct = distinct (definition, history). Family c13e: the definitions with a due time ahead (date, "
+          "duration, cycles R0..R3/unbounded with and without start / end) behind a timer intermediate catch event in a "
+          "process start -> catch -> end run by the real engine on the mock clock (one OS process per case), every "
+          "increasing sequence of up to 2 (thorough: 3) clock settings from the same grid; after each the harness waits "
+          "until no goroutine can run and records listening / timer event observed / continued / end completed / "
+          "armed wake-ups; compared with the timer model feeding a one-token catch event, and the clause 'continues "
+          "exactly once per firing it was listening for' is evaluated on the traces"),
     trusted_base=_TB + [
         "modelled, not verified: Go's select (an explicit choice among the ready cases), channel rendezvous with an "
         "always-ready consumer, qri-io/iso8601 parsing (the harness feeds ISO text through timer.New and the parsed "
